@@ -31,5 +31,20 @@ CHECKS["C03"] = {
     "note": "Static; quantifies over all lists/answers because the code only tests membership and equality of opaque terms. Server silence and JSON-RPC errors are exception edges of the send_message call (every such path is shown to carry no notification). Not decided: what the transport does with the written notification.",
     "technique": "all-paths abstract interpretation with path literals, flow-sensitive def-site terms and ordered event counting",
 }
+CHECKS["C01"] = {
+    "text": "The wait is a fold of a per-message predicate over a FIFO stream, so what is decided per message holds for every sequence and every timing: all paths from receive() to a return of the wait loop must carry, on the received object, id == <the id term the request was built with>, not-a-list and no-method literals, and the returned value derives from that object only; the loop has no other exit than that return and raises (no break, constant-True condition, cannot fall off); on every path of send_message reaching the wait exactly one write_stream.send of create_request(method=<method>, params=<params>, id=<awaited id>) precedes it, outside loops, and the wait reads the caller's read stream; every typed send_* helper issues exactly one request per returning path on its own streams and returns a value derived from the response.",
+    "note": "Static; poll boundaries and arrival times are not inputs of the per-message predicate, so they need no enumeration. Not decided: that the payload equals what the server sent byte for byte (pydantic validation of the message object), and fairness between concurrent waiters (C18).",
+    "technique": "all-paths abstract interpretation with path literals over def-site terms, event ordering/counting, call-site parameter binding",
+}
+CHECKS["C18"] = {
+    "text": "R1 decides 'no cross-talk' for every schedule: each waiter's return is guarded, on all paths, by id equality with its own request id, no-method and not-a-list (the per-message predicate does not depend on timing or on other waiters). R2 decides 'no lost responses' negatively: a path of the shared-stream consumer from receive() to the next iteration under `id != own id` that does not hand the message on is reported; on this tree that path exists and is a recorded known finding (two outstanding requests answered in reverse order both time out).",
+    "note": "Static, all paths of one loop iteration. Assumes the memory stream delivers each item to exactly one receiver (anyio). The known finding is by design of the library (no dispatcher) and is listed in known_findings.json with a demonstration.",
+    "technique": "all-paths abstract interpretation of the wait loop body: guard literals on returns, hand-off events on discarding paths",
+}
+CHECKS["C14"] = {
+    "text": "Counting and ordering clauses are decided on all paths: the cancellation check precedes the bounded receive in every iteration; the pre-send check precedes the only request write; the cancelled path sends at most/at least one cancelled notification naming the request id on the write stream and then raises CancelledError, and a triggered token can never let the check return normally; the progress callback is reached only under method == notifications/progress ∧ token == the uuid4 token generated for and sent with this request, gets the three notified values, is contained by an except-Exception handler that cannot raise, and the iteration continues. Timing clauses are necessary conditions: the wait is lexically inside fail_after(<timeout param, never reassigned, unshielded>), no handler in the call tree can swallow the deadline's cancellation, the TimeoutError handler covers only the inner poll, and the poll interval is a positive constant the caller does not override.",
+    "note": "Static. The timing sentences hold given anyio's cancel-scope semantics and these structural conditions; wall-clock behaviour, and a progress callback that itself blocks, are not decidable statically and are not claimed.",
+    "technique": "all-paths abstract interpretation (per-iteration event ordering, guard literals at call sites), lexical scope/dominance checks for deadlines",
+}
 
 NOT_APPLICABLE = {f"C{i:02d}": PENDING for i in range(1, 21)}
